@@ -325,6 +325,7 @@ def run(chk):
     chk.not_covered += ["decorators/keywords of the outermost @guppy function are handled by the decorator itself", "comprehension internals (desugar_comprehension)"]
     comptime_call_shape(chk)
     expression_builder_keeps_operators(chk)
+    expression_statements_kept(chk)
     comprehension_clauses(chk)
     chk.use_engine(e)
 
@@ -424,6 +425,92 @@ def comprehension_clauses(chk):
     chk.record("_build_generators:shapes-explored", n_ok >= 30, str(n_ok), kind="reachability")
     for k in ("guppylang_internals.compiler.stmt_compiler:StmtCompiler", "guppylang_internals.ast_util:get_type", "guppylang_internals.tys.builtin:bool_type"):
         e.models.pop(k, None)
+    chk.use_engine(e)
+
+REPLAY_BARE = r'''
+import tempfile, importlib.util, os, sys, shutil
+from guppylang_internals.error import GuppyError
+src = """from guppylang import guppy
+from guppylang.std.builtins import owned
+from guppylang.std.quantum import qubit, discard
+@guppy
+def bare_undefined(x: int) -> int:
+    undefined_name
+    return x
+@guppy
+def bare_maybe_undefined(b: bool) -> int:
+    if b:
+        y = 1
+    y
+    return 0
+@guppy
+def bare_after_move(q: qubit @owned) -> None:
+    discard(q)
+    q
+@guppy
+def bare_defined(x: int) -> int:
+    x
+    return x
+"""
+d = tempfile.mkdtemp(dir=os.environ.get("TMPDIR", "/var/tmp")); fn = os.path.join(d, "replay_c32b.py"); open(fn, "w").write(src)
+spec = importlib.util.spec_from_file_location("replay_c32b", fn); m = importlib.util.module_from_spec(spec); sys.modules["replay_c32b"] = m
+spec.loader.exec_module(m)
+res = {}
+for name in ("bare_undefined", "bare_maybe_undefined", "bare_after_move", "bare_defined"):
+    try:
+        getattr(m, name).check(); res[name] = "accepted"
+    except GuppyError as ex:
+        res[name] = "rejected:" + type(ex.error).__name__
+shutil.rmtree(d, ignore_errors=True)
+bad = [k for k in ("bare_undefined", "bare_maybe_undefined", "bare_after_move") if res[k] == "accepted"] + ([] if res["bare_defined"] == "accepted" else ["bare_defined"])
+print(json.dumps({"violates": bool(bad), "observed": res, "required": "an expression statement consisting of a name is checked like any other read: undefined / possibly undefined / already moved names are rejected"}))
+'''
+
+
+def expression_statements_kept(chk):
+    """CFGBuilder.visit_Expr (cfg/builder.py): an expression statement reaches its basic block as written —
+    name resolution, definite assignment and linearity see it — unless what is left of it is a GENERATED
+    temporary (the value of a lifted conditional expression, which is deliberately not type-checked).  In
+    particular a statement that is a bare user variable is a read of that variable."""
+    from . import C03 as C3
+    from .common import ast_from_source
+    BM = "guppylang_internals.cfg.builder"
+    e = C3.cfg_engine(chk)
+    e.func_info(BM, "CFGBuilder.visit_Expr")
+    STMTS = ["x", "undefined_name", "_", "tmp0", "f(x)", "s.a", "xs[i]", "(x, y)", "1", "x + y", "-x", "x.f(y)", "None", "[x, y]"]
+    n = 0
+    for ex in STMTS:
+        def t(it, ex=ex):
+            m = e.module(BM)
+            it.ctx.mod_globals(m)["tmp_vars"] = [f"%tmp{k}" for k in range(50)]
+            CB = it.lookup_global(m, "CFGBuilder")
+            fd = ast_from_source(it, f"def fn():\n    {ex}\n").fields["body"][0]
+            return it.call_method(it.call(CB, [], {}), "build", [fd.fields["body"], True, SObj(ClassVal("Globals", builtin=True), {})])
+        paths = e.explore(t)
+
+        def post(p, ex=ex):
+            if p.kind != "return":
+                return z3.BoolVal(False)
+            stmts = [C3.to_real_ext(st) for bb in p.value.fields["bbs"] for st in bb.fields["statements"]]
+            return z3.BoolVal(len(stmts) == 1 and ast.unparse(stmts[0]) == ast.unparse(ast.parse(ex)))
+        chk.prove_paths(f"visit_Expr[{ex}]:the-expression-statement-reaches-its-block-as-written", paths, post, func=f"{BM}:CFGBuilder.visit_Expr",
+                        replay=lambda m_: {"script": REPLAY_BARE, "input": {}})
+        n += 1
+    # the one exception: the generated temporary of a lifted conditional expression
+    def t_tmp(it):
+        m = e.module(BM)
+        it.ctx.mod_globals(m)["tmp_vars"] = [f"%tmp{k}" for k in range(50)]
+        CB = it.lookup_global(m, "CFGBuilder")
+        fd = ast_from_source(it, "def fn():\n    1 if c else 2.5\n").fields["body"][0]
+        return it.call_method(it.call(CB, [], {}), "build", [fd.fields["body"], True, SObj(ClassVal("Globals", builtin=True), {})])
+
+    def post_tmp(p):
+        if p.kind != "return":
+            return z3.BoolVal(False)
+        stmts = [ast.unparse(C3.to_real_ext(st)) for bb in p.value.fields["bbs"] for st in bb.fields["statements"]]
+        return z3.BoolVal(sorted(stmts) == ["%tmp0 = 1", "%tmp0 = 2.5"])
+    chk.prove_paths("visit_Expr[1 if c else 2.5]:both-arms-are-evaluated-into-the-temporary/\\the-bare-temporary-is-not-a-statement", e.explore(t_tmp), post_tmp, func=f"{BM}:CFGBuilder.visit_Expr")
+    chk.record("visit_Expr:statements-explored", n >= 12, str(n), kind="reachability")
     chk.use_engine(e)
 
 
